@@ -482,6 +482,12 @@ func Run(opt Options, main func()) (res Result) {
 		defer Exit()
 		defer close(fin)
 		main()
+		// End-of-run drain: while the main task sleeps for one fake microsecond every task that is
+		// still runnable is scheduled until it blocks for good (a timer, a channel). Without it a run
+		// could end with a background task parked in the middle of a step (say between reading the
+		// configuration and taking its lock), which made the end of a run depend on simultaneous
+		// wake-ups and left the race detector without the edge that the completed step provides.
+		time.Sleep(time.Microsecond)
 	}()
 
 	raceDisable()
